@@ -16,7 +16,7 @@ BOUNDS = {
     'quick': dict(tokens=5, chars=6, extract=6),
     'thorough': dict(tokens=7, chars=7, extract=7),
 }
-NUMS = set(t for t in TOKENS_E if t[0].isdigit() or t[0] == '.')
+NUMS = set(t for t in TOKENS_E if t[0].isdigit() or t[0] == '.')     # plain number tokens (not the parenthesised units)
 ALLOWED = set('0123456789.+-*/\\() \t')
 
 
